@@ -86,7 +86,7 @@ def run_session(case, ops=()):
                     warnings.simplefilter('ignore')
                     oshape = [s_ + 2 for s_ in case['shape']]
                     Dendrogram.compute((np.arange(int(np.prod(oshape)), dtype=float) * 5 % 7).reshape(oshape)).prune(
-                        min_delta=kw['min_delta'] + 3, min_npix=minn + 2, is_independent=lst)
+                        min_delta=kw.get('min_delta', 0) + 3, min_npix=minn + 2, is_independent=lst)
             before = dict(d.params)
             with warnings.catch_warnings():
                 warnings.simplefilter('ignore')
